@@ -25,6 +25,9 @@ pub struct Case {
     pub mode: Mode,
     pub delivery: Delivery,
     pub hint: bool,
+    /// the length hint is off by this many samples (cross-path equality checks only: a lying hint decides
+    /// nothing about the total the stream should state)
+    pub hint_delta: i64,
     pub fill_at_eof: bool,
     pub chans: Vec<Vec<i32>>,
 }
@@ -33,7 +36,8 @@ impl Case {
     pub fn source(&self) -> VecSource {
         let mut s = VecSource::new(&self.g, gen::interleave(&self.chans));
         s.delivery = self.delivery.clone();
-        s.hint = self.hint;
+        s.hint = self.hint || self.hint_delta != 0;
+        s.hint_delta = self.hint_delta;
         s.fill_at_eof = self.fill_at_eof;
         s
     }
@@ -203,6 +207,9 @@ pub fn run_case(case: &Case, props: &[&str], with_counts: bool) -> CaseResult {
             Mode::Mt(w) => vec![Mode::St, Mode::Mt(w % 3 + 1), Mode::Fl],
             Mode::Fl => vec![Mode::St, Mode::Mt(3)],
         };
+        // (the frame-level assembly of this harness takes the total from the context, the library's entry points
+        //  take the source's hint: with a lying hint only the two library paths are comparable)
+        let others: Vec<Mode> = if case.hint_delta != 0 { others.into_iter().filter(|m| !matches!(m, Mode::Fl)).collect() } else { others };
         others.iter().all(|m| match enc::encode(&case.cfg, case.source(), m) {
             Outcome::Ok(s) => enc::stream_bytes(&s).map_or(false, |b| b == bytes && outcome == "ok"),
             _ => false,
@@ -236,7 +243,7 @@ pub fn run_case(case: &Case, props: &[&str], with_counts: bool) -> CaseResult {
         "cfg": serde_json::to_string(&case.cfg).unwrap(),
         "outcome": outcome, "detail": detail,
         "nbytes": cap31(nbytes_real), "rawbytes": raw, "count_bytes": count_bytes, "count_rem": count_rem, "bytes": bytes, "twin_equal": twin_equal, "modes_equal": modes_equal,
-        "delivery": format!("{:?}", case.delivery),
+        "delivery": format!("{:?}", case.delivery), "hint_delta": case.hint_delta,
         "count": stream.as_ref().map_or(-1i64, |s| if with_counts { s.count_bits() as i64 } else { -1 }),
     })];
     let parsed = if props.contains(&"C15") && outcome == "ok" {
@@ -474,7 +481,7 @@ pub fn gen_cases(profile: &str, seed: u64, b: &Budget) -> Vec<Case> {
         }
         let big = b.bigshare > 0 && idx % b.bigshare == b.bigshare / 2 && !long && !["dcedge", "ricebump", "wrap32", "fullsine", "nearverb2"].contains(&family.as_str()) && profile != "c13";
         if big {
-            bs = [4096usize, 2304, 8192, 16384, 4608, 32767, 1152, 12000][(idx / b.bigshare) % 8];
+            bs = [4096usize, 9216, 2304, 18432, 8192, 16384, 4608, 32767, 1152, 12000][(idx / b.bigshare) % 10];
             cfg.block_size = bs;
         }
         let mut n = gen::length(&mut rng, bs, b.max_frames);
@@ -525,6 +532,7 @@ pub fn gen_cases(profile: &str, seed: u64, b: &Budget) -> Vec<Case> {
         if idx % 5 == 1 || idx % 7 == 3 {
             cfg.field_bs = [4096usize, 32, 32767, 1152, (bs + 1).min(32767), 4096][(idx / 5) % 6];
         }
+        let lying_hint = if profile == "c05" && idx % 9 == 4 && !matches!(mode, Mode::Fl) { [37i64, -3, 5000, -1][(idx / 9) % 4] } else { 0 };
         let case = Case {
             id: format!("{profile}-{seed}-{idx}"),
             g,
@@ -534,6 +542,7 @@ pub fn gen_cases(profile: &str, seed: u64, b: &Budget) -> Vec<Case> {
             mode,
             delivery,
             hint: rng.gen_bool(if wide.is_some() { 0.25 } else { 0.6 }),
+            hint_delta: lying_hint,
             fill_at_eof: rng.gen_bool(0.6),
             chans,
         };
@@ -577,6 +586,7 @@ pub fn gen_length_sweep(seed: u64, thorough: bool) -> Vec<Case> {
                 mode: match idx % 4 { 0 => Mode::St, 1 => Mode::Mt(2), 2 => Mode::Fl, _ => Mode::Mt(1) },
                 delivery: Delivery::Ints,
                 hint: idx % 2 == 0,
+                hint_delta: 0,
                 fill_at_eof: true,
                 chans,
             });
@@ -618,6 +628,29 @@ fn failed_write_prelude(i: usize) {
     }));
 }
 
+fn other_parameters_prelude(c: &Case, i: usize) {
+    let _ = std::panic::catch_unwind(std::panic::AssertUnwindSafe(|| {
+        let bs = c.g.bs;
+        let n = (bs * (1 + i % 2)).min(c.g.n);
+        if n == 0 || bs > 8192 {
+            return;
+        }
+        let g = Geometry { ch: c.g.ch, bps: c.g.bps, rate: c.g.rate, bs, n };
+        let chans: Vec<Vec<i32>> = c.chans.iter().map(|x| x[..n].to_vec()).collect();
+        let mut cfg = c.cfg.clone();
+        cfg.field_bs = 0;
+        cfg.alpha = match cfg.alpha {
+            None => Some(0.4),
+            Some(a) if a > 0.5 => None,
+            Some(a) => Some(a + 0.25),
+        };
+        cfg.lpc_order = 1 + (cfg.lpc_order + 3) % 24;
+        cfg.quant_precision = 1 + (cfg.quant_precision + 4) % 15;
+        cfg.use_lpc = true;
+        let _ = enc::encode(&cfg, VecSource::new(&g, gen::interleave(&chans)), &Mode::St);
+    }));
+}
+
 fn shorter_block_prelude(c: &Case, i: usize) {
     let _ = std::panic::catch_unwind(std::panic::AssertUnwindSafe(|| {
         let bs = (64 + i % 37).min(c.g.bs.max(32));
@@ -651,6 +684,11 @@ pub fn drive(cases: &[Case], props: &[&str], with_counts: bool, out: &Path, pref
         // (per-thread caches keyed by configuration values must not depend on the sizes seen before)
         if i % 5 == 4 {
             shorter_block_prelude(c, i);
+        }
+        // ... and every fifth case by an encode of the SAME block size under another analysis window / predictor
+        // setting (state keyed by the size alone must not leak parameters from one call to the next)
+        if i % 5 == 0 {
+            other_parameters_prelude(c, i);
         }
         let r = run_case(c, props, with_counts);
         classes.insert(c.class());
